@@ -7,7 +7,11 @@ from common import *
 
 STRINGS = [b'"a"', b'"b c"', b'"x@y.z"', b'"\\"q\\""', b'"back\\\\slash"', b'"[br,ack]"', b'"\xc3\xa9t\xc3\xa9"', b'""', b'"INBOX"',
            b'"multi\nline"', b'"#nocomment"', b'"/* no */"', b'"semi;colon"', b'"{brace}"',
-           b'"end\\\\"', b'"\\\\\\"x"', b'"]"', b'","', b'"[\\"a\\",\\"b\\"]"', b'"\xe2\x82\xac\xf0\x9f\x98\x80"', b'" lead and trail "', b'"\r\n"', b'"text:\n.\n"', b'"100%"', b'"%s%d%(k)s"']
+           b'"end\\\\"', b'"\\\\\\"x"', b'"]"', b'","', b'"[\\"a\\",\\"b\\"]"', b'"\xe2\x82\xac\xf0\x9f\x98\x80"', b'" lead and trail "', b'"\r\n"', b'"text:\n.\n"', b'"100%"', b'"%s%d%(k)s"',
+           # a line break inside AND an escaped quote / backslash at the very end; long items with blanks (what a line-wrapping or
+           # a "looks quoted" test would get wrong)
+           b'"first line\nthen \\"quoted\\""', b'"\\"\n\\""', b'"x\r\ny\\\\"', b'"travel and expenses for the month of march"',
+           b'"a rather long folder name / with several words in it"']
 NUMBERS = [b"0", b"10", b"1K", b"2M", b"3g", b"100000", b"0K", b"00", b"007", b"010k", b"00G", b"1000000000000"]
 MULTI = [b"text:\nhello\n.\n", b"text:\r\nhi $x\r\n.\r\n", b"text:\n.x\n.\n", b"text:\n20% off %s\n.\n", b"text:\rhello\r.\n", b"text:\nline one\r.\r\n", b"text: # c\r\nx\r\n.\r\n"]
 
@@ -29,7 +33,7 @@ class Gen:
     def strlist(self):
         if self.r.random() < 0.4:
             return [self.string()]
-        n = self.r.randint(1, 3)
+        n = self.r.randint(1, 3) if self.r.random() < 0.9 else self.r.randint(5, 9)     # now and then a list far wider than a line
         items = [self.string() for _ in range(n)]
         if self.r.random() < 0.25:
             items.append(self.r.choice(items))       # the same string twice in one list (last = an earlier one)
@@ -245,7 +249,9 @@ def single_edits(tokens, vocab, r, limit=None):
             end = i + tokens[i:].index(b";")
             names = [t[1:-1] for t in tokens[i + 1:end] if t[:1] == b'"' and len(t) >= 2]
             if names and all(b'"' not in x and b"\\" not in x for x in names):
-                forms = [b",".join(names), b", ".join(names), b" ".join(names), b"x," + b",".join(names), b",".join(names) + b",", b" " + names[0], names[0] + b" "]
+                forms = [b",".join(names), b", ".join(names), b" ".join(names), b"x," + b",".join(names), b",".join(names) + b",", b" " + names[0], names[0] + b" ",
+                         # a name wrapped in ESCAPED quotes is another name
+                         b'\\"' + names[0] + b'\\"', b'\\"' + names[0], names[0] + b'\\"', b"\\\\" + names[0]]
                 if len(names) == 1:
                     forms = forms[3:]
                 for f in forms:
